@@ -25,9 +25,10 @@ type preludeDecl struct {
 var preludeDecls = []preludeDecl{
 	{"F64", "(declare-sort F64 0)", nil},
 	{"f64zero", "(declare-const f64zero F64)", []string{"F64"}},
-	{"atoi_ok", "(declare-fun atoi_ok (String) Bool)", nil},
+	// facts about strconv used by the proofs: neither the empty string nor the terminator "--" is a number
+	{"atoi_ok", "(declare-fun atoi_ok (String) Bool)\n(assert (not (atoi_ok \"--\")))\n(assert (not (atoi_ok \"\")))", nil},
 	{"atoi_val", "(declare-fun atoi_val (String) Int)", nil},
-	{"pf_ok", "(declare-fun pf_ok (String) Bool)", nil},
+	{"pf_ok", "(declare-fun pf_ok (String) Bool)\n(assert (not (pf_ok \"--\")))\n(assert (not (pf_ok \"\")))", nil},
 	{"pf_val", "(declare-fun pf_val (String) F64)", []string{"F64"}},
 	{"pf_errval", "(declare-fun pf_errval (String) F64)", []string{"F64"}},
 	{"str_lower", "(declare-fun str_lower (String) String)", nil},
